@@ -1038,6 +1038,12 @@ class Interp:
         if fname in ("partial", "functools.partial") and args and isinstance(
                 args[0], (Closure, Bound, Partial)):
             return Partial(args[0], args[1:], kw)
+        if fname in ("partial", "functools.partial") and args and callable(
+                args[0]) and not isinstance(args[0], (Opaque, type)):
+            # a rule-supplied callable (a hook standing for an inherited
+            # method): the partial application of the hook
+            import functools
+            return functools.partial(args[0], *args[1:], **kw)
         if isinstance(e.func, ast.Name) and isinstance(env.get(e.func.id),
                                                        Partial):
             return self.apply(env[e.func.id], args, kw)
